@@ -344,10 +344,12 @@ Section Modifier.
       end.
 
   (* the tail of modify_tree: `if changed { new_tree.nodes.sort_by(name); save; (new_id != id).then_some(new_id) }
-     else None` — the sort keeps a tree in name order when a visitor renamed nodes (repair's marker suffix) *)
+     else None` — the sort keeps a tree in name order when a visitor renamed nodes (repair's marker suffix);
+     whether the source has it is read by extract.py (Extracted.modifier_sorts_changed_trees) *)
   Definition finish (rd : bool) (old : tree) (res : tree * bool) : change :=
     let '(nt, ch) := if rd then res else ([], true) in
-    if ch && negb (tree_eqb (sort_tree nt) old) then Changed (sort_tree nt) else Unchanged.
+    let st := if modifier_sorts_changed_trees then sort_tree nt else nt in
+    if ch && negb (tree_eqb st old) then Changed st else Unchanged.
 
   (* one iteration of the `for node in tree` loop, including the recursive modify_tree *)
   Fixpoint modify_node (path : list N) (n : node) {struct n} : option node * bool :=
@@ -388,10 +390,12 @@ Section Rewrite.
     else let '(n', ch) := modn n in
          match n_kind n' with KDir => AVisit n' ch | _ => ANode n' ch end.
 
-  (* Rewriter::rewrite_tree: the nameless root (empty path) is not matched against the globs *)
+  (* Rewriter::rewrite_tree: the nameless root (empty path) is not matched against the globs
+     (Extracted.rewrite_root_is_matched = false, read from the source) *)
   Definition rewrite_tree (path : list N) (t : tree) : change :=
     match path with
-    | [] => modify_tree rw_visit (fun _ => true) path t
+    | [] => if rewrite_root_is_matched && excl path true then Removed
+            else modify_tree rw_visit (fun _ => true) path t
     | _ => if excl path true then Removed else modify_tree rw_visit (fun _ => true) path t
     end.
 End Rewrite.
